@@ -61,3 +61,41 @@ class _(Contract):
         b, _, _ = L.var_algebra()
         C = ex.closure(lambda p, q: g.U(p, q), "rtcU")
         return VBool(L.forall(2, lambda p, q: L.Implies(L.And(a.event.has(p), a.event.has(q)), C(b(p), b(q)))))
+
+
+@contract(f"{AU}.get_ancestors_of_counterfactual", props=["C19"])
+class _(Contract):
+    """Def. 2.1: An(Y_x) = { W_z : W in An(Y) in G with the edges out of X removed, z the subscripts of x whose variable is an
+    ancestor of W in G with the edges into X removed } (W itself when z is empty); for a plain variable, its ancestors."""
+    params = {"event": "node", "graph": "graph"}
+    allowed_raises = ("NetworkXError", "TypeError")
+    raises_exact = False
+    finite_ok = False
+
+    def pre(self, ex, a):
+        L, g = ex.L, a.graph
+        b, ivs, plain = L.var_algebra()
+        return [("plain-nodes", L.forall(1, lambda n: L.Implies(g.N(n), L.And(L.Not(L.is_cf(n)), L.Not(L.is_intervention(n)), b(n) == n)))),
+                ("in-graph", z3.If(L.is_cf(a.event.t), g.N(b(a.event.t)), g.N(a.event.t))),
+                ("plain-or-cf", L.Not(L.is_intervention(a.event.t)))]
+
+    def post(self, ex, a, res):
+        L, g = ex.L, a.graph
+        if not isinstance(res, VSet):
+            return {"type": L.F()}
+        b, ivs, plain = L.var_algebra()
+        v = a.event.t
+        X = lambda x: L.exists(1, lambda i: L.And(ivs(v, i), b(i) == x))
+        AncOut = ex.closure(lambda p, q: L.And(g.D(p, q), L.Not(X(p))), "rtcDoutX")
+        AncIn = ex.closure(lambda p, q: L.And(g.D(p, q), L.Not(X(q))), "rtcDinX")
+        Z = lambda w, i: L.And(ivs(v, i), AncIn(b(i), w))
+        An = ex.closure(lambda p, q: g.D(p, q), "rtcD")
+        cfv = L.is_cf(v)
+        return {
+            "plain.ancestors": L.Implies(L.Not(cfv), L.forall(1, lambda r: res.has(r) == L.And(g.N(r), An(r, v)))),
+            "cf.sound.base": L.Implies(cfv, L.forall(1, lambda r: L.Implies(res.has(r), L.And(g.N(b(r)), AncOut(b(r), b(v)))))),
+            "cf.sound.subscripts": L.Implies(cfv, L.forall(2, lambda r, i: L.Implies(res.has(r), ivs(r, i) == Z(b(r), i)))),
+            "cf.sound.plain-when-empty": L.Implies(cfv, L.forall(1, lambda r: L.Implies(L.And(res.has(r), L.Not(L.is_cf(r))), r == b(r)))),
+            "cf.complete": L.Implies(cfv, L.forall(1, lambda w: L.Implies(L.And(g.N(w), AncOut(w, b(v))),
+                                                                        L.exists(1, lambda r: L.And(res.has(r), b(r) == w))))),
+        }
